@@ -10,3 +10,7 @@ Proof. vm_compute. reflexivity. Qed.
 Lemma all_error_path_names_bound_l :
   forallb (use_ok scope_of globals_of builtin_names) uses = true.
 Proof. vm_compute. reflexivity. Qed.
+
+Lemma all_raise_sites_match_constructor_l :
+  forallb (fun s => sig_ok (ctor_params (r_cls s)) s || exempt_b exempt_sites s) raises = true.
+Proof. vm_compute. reflexivity. Qed.
